@@ -275,11 +275,13 @@ func init() {
 		ID:    "C04",
 		Title: "Stream framing is independent of TCP segmentation",
 		Roots: []string{"service.(*packageParse).unpack"},
-		Decided: "per call of unpack, for every pending buffer and every read: each returned message carries exactly one frame (its raw bytes start and end with 0x7e and contain no other 0x7e), it owns those bytes (C09), " +
-			"it is the decoding of exactly those bytes (Decode's contract, C02), and when unpack returns without error no complete frame is left at the head of the pending bytes - a frame is delivered by the call in which its closing delimiter arrives, never later",
+		Decided: "per call of unpack, for every pending buffer and every read: (1) each returned message carries exactly one frame (its raw bytes start and end with 0x7e and contain no other 0x7e), owns those bytes (C09) and is the decoding of exactly those bytes (Decode's contract, C02); " +
+			"(2) conservation, stated inductively: the pending bytes are at every point a suffix of (old pending bytes ++ read); every message is built from the bytes at the head of the pending buffer, which then advances by exactly their number; on the fast path the single message is built from the whole read and nothing was pending; " +
+			"(3) only single-frame-shaped byte strings are handed to Decode, so an error is the error of one frame and never of two frames merged; (4) when unpack returns without error no complete frame is left at the head of the pending bytes: a frame is delivered by the call in which its closing delimiter arrives. " +
+			"Together: what a call returns and leaves pending is determined by the concatenation of the old pending bytes and the read alone",
 		Undecided: []string{
-			"conservation and order: that the frames returned plus the bytes left pending are exactly the old pending bytes followed by the read (needs a sum over the returned messages; not built) - a change that drops or merges frames, e.g. a fast path that accepts two coalesced frames as one and fails to decode them, is not reported by these clauses",
-			"independence of the partition into reads, which follows from conservation by induction over the reads (pen and paper)",
+			"the last step from (1)-(4) to 'the message sequence is the same for every partition into reads' is an induction over the reads (pen and paper; each call's effect depends only on the concatenation)",
+			"bytes before the first delimiter (never sent by a conforming terminal) are treated differently by the two paths: the fast path fails the connection, the buffered path waits",
 			"connection.reader's 1023-byte read loop (goroutine, socket)",
 		},
 	})
